@@ -182,15 +182,16 @@ func (c *evalCtx) val(k string) (*D, error) {
 	return d, nil
 }
 
+// ifaceOf describes an interface value holding inner: the runtime prints "i:" followed by
+// the VDesc of the dynamic value, which describes the pointee for pointers.
 func ifaceOf(inner *D) *D {
 	for inner.K == 'P' {
 		inner = inner.Sub
 	}
-	switch inner.K {
-	case 'L', 'I':
-		return &D{K: 'I', ID: inner.ID}
+	if inner.K == 'I' {
+		return inner
 	}
-	return &D{K: '?'}
+	return &D{K: 'I', Sub: inner}
 }
 
 // CheckScenario compares one scenario with the model's wiring.
@@ -288,6 +289,10 @@ func CheckScenario(w *Wiring, sc *Scenario) []Problem {
 				if phase == 1 {
 					add("cleanup", "cleanup of %s ran after the injector returned but before the caller invoked the cleanup function", ev.Name)
 				}
+			}
+		case 'N':
+			if len(ev.Fields) > 0 && strings.HasPrefix(ev.Fields[0], "FAIL") {
+				add("wiring", "generated consumer observed: %s", strings.Join(ev.Fields, " "))
 			}
 		case 'R':
 			phase = 1
